@@ -27,6 +27,7 @@ type Gen struct {
 	n        int
 	current  atomic.Value // string: the case being executed (for the watchdog)
 	started  int64        // unix nano of the current case start
+	Sync     bool // announce every case on stderr before running it, flush after (crash diagnosis)
 	Stats    map[string]int
 	Exhaust  []string // names of finite sub-domains enumerated completely
 }
@@ -52,6 +53,9 @@ func (g *Gen) Stat(bucket string) { g.Stats[bucket]++ }
 func (g *Gen) Case(op, args, key string, f func() string) {
 	g.current.Store(op + "\t" + args)
 	atomic.StoreInt64(&g.started, time.Now().UnixNano())
+	if g.Sync {
+		fmt.Fprintf(os.Stderr, "PENDING\t%s\t%s\n", op, args)
+	}
 	obs := try(f)
 	atomic.StoreInt64(&g.started, 0)
 	g.out.WriteString(op)
@@ -63,6 +67,9 @@ func (g *Gen) Case(op, args, key string, f func() string) {
 	g.out.WriteString(key)
 	g.out.WriteByte('\n')
 	g.n++
+	if g.Sync {
+		g.out.Flush()
+	}
 }
 
 func try(f func() string) (r string) {
@@ -94,6 +101,7 @@ func main() {
 	outp := flag.String("out", "", "output file (default stdout)")
 	corpus := flag.String("corpus", "", "corpus file: op \\t args lines replayed first")
 	replay := flag.String("replay", "", "run one case: op \\t args")
+	syncf := flag.Bool("sync", false, "announce each case on stderr before running it")
 	flag.Parse()
 
 	w := os.Stdout
@@ -106,7 +114,7 @@ func main() {
 		defer f.Close()
 		w = f
 	}
-	g := &Gen{Prop: *prop, Thorough: *tier == "thorough", out: bufio.NewWriterSize(w, 1<<20), Stats: map[string]int{}}
+	g := &Gen{Prop: *prop, Thorough: *tier == "thorough", out: bufio.NewWriterSize(w, 1<<20), Stats: map[string]int{}, Sync: *syncf}
 	// one PRNG state per (seed, property): a disagreement replays exactly
 	h := uint64(1469598103934665603)
 	for _, c := range []byte(*prop) {
